@@ -346,4 +346,3 @@ func (c *Ctx) ord10() {
 	}
 	c.S.Floor("ORD-10", "entry paths reaching a side effect", n, 9)
 }
-
